@@ -206,6 +206,15 @@ def branch_sweep(rnd, thorough=False):
                 yield {"lines": L(*(["L NOP"] + [" NOP"] * n + [" %s %s" % (mn, t)])), "tag": "pcr-bwd", "meta": {"mn": mn, "stmt": n + 1, "target": 0, "k": 0}}
             yield {"lines": L(" %s L+3,PCR" % mn, " NOP", "L NOP", " NOP", " NOP", " NOP"), "tag": "pcr-k", "meta": {"mn": mn, "stmt": 0, "target": 2, "k": 3}}
             yield {"lines": L(" %s L-1,PCR" % mn, " NOP", "L NOP"), "tag": "pcr-k", "meta": {"mn": mn, "stmt": 0, "target": 2, "k": -1}}
+    # label +- constant: the width must account for the constant as well
+    for mn in (("LEAX", "LDY") if thorough else ("LEAX",)):
+        for k in ((1, 2, 7, 12, -1, -12, 100, -100) if thorough else (12, -12, 2)):
+            ks = "%+d" % k
+            for n in (range(100, 145) if thorough else list(range(108, 140, 3)) + [126, 127, 128, 129]):
+                yield {"lines": L(*([" %s L%s,PCR" % (mn, ks)] + [" NOP"] * n + ["L NOP"] + [" NOP"] * 20)), "tag": "pcr-k-fwd",
+                       "meta": {"mn": mn, "stmt": 0, "target": n + 1, "k": k}}
+                yield {"lines": L(*([" NOP"] * 20 + ["L NOP"] + [" NOP"] * n + [" %s L%s,PCR" % (mn, ks)])), "tag": "pcr-k-bwd",
+                       "meta": {"mn": mn, "stmt": n + 21, "target": 20, "k": k}}
     for n in [32700, 32760, 32766, 32770, 40000]:
         yield {"lines": L(" LEAX L,PCR", " RMB %d" % n, "L NOP"), "tag": "pcr-far", "meta": {"mn": "LEAX", "stmt": 0, "target": 2, "k": 0}}
         yield {"lines": L("L NOP", " RMB %d" % n, " LEAX L,PCR"), "tag": "pcr-far", "meta": {"mn": "LEAX", "stmt": 2, "target": 0, "k": 0}}
@@ -385,6 +394,19 @@ def include_cases(rnd, n):
                 files[names[d]] = seg
                 break
         yield {"lines": main, "files": files, "tag": "include", "meta": {"flat": flat}}
+    # the same (label-free) file included twice, directly and through another include
+    for body in (L(" NOP", " CLRA", " FCB 1,2,3"), L(" LDA #5", " PSHS A,B", " LEAX 2,X"), L(" JMP DONE", " FDB $1234")):
+        main = L(" ORG $0E00", "START NOP", " INCLUDE rep.asm", " LDX #DONE", " INCLUDE rep.asm", "DONE RTS", " JMP DONE")
+        flat = main[:2] + body + main[3:4] + body + main[5:]
+        yield {"lines": main, "files": {"rep.asm": body}, "tag": "include", "meta": {"flat": flat}}
+        main2 = L(" ORG $0E00", "START NOP", " INCLUDE rep.asm", " INCLUDE outer.asm", "DONE RTS", " JMP DONE")
+        flat2 = main2[:2] + body + L(" TFR X,Y") + body + main2[4:]
+        yield {"lines": main2, "files": {"rep.asm": body, "outer.asm": L(" TFR X,Y", " INCLUDE rep.asm")}, "tag": "include", "meta": {"flat": flat2}}
+    # an included file whose first statement is itself an INCLUDE / a comment-only include followed by an INCLUDE
+    yield {"lines": L(" ORG $100", " INCLUDE a.asm", "E RTS"), "files": {"a.asm": L(" INCLUDE b.asm", " CLRA"), "b.asm": L("B1 LDB #$10", " LBRA E")},
+           "tag": "include", "meta": {"flat": L(" ORG $100", "B1 LDB #$10", " LBRA E", " CLRA", "E RTS")}}
+    yield {"lines": L(" ORG $100", " INCLUDE c.asm", " INCLUDE b.asm", "E RTS"), "files": {"c.asm": L("; only a comment", ""), "b.asm": L("B1 LDB #$10", " LBRA E")},
+           "tag": "include", "meta": {"flat": L(" ORG $100", "B1 LDB #$10", " LBRA E", "E RTS")}}
     # missing file and cycles
     yield {"lines": L(" NOP", " INCLUDE nosuch.asm"), "files": {"other.asm": L(" NOP")}, "tag": "include-missing", "meta": {}}
     yield {"lines": L(" INCLUDE a.asm"), "files": {"a.asm": L(" NOP", " INCLUDE a.asm")}, "tag": "include-cycle", "meta": {}}
